@@ -190,8 +190,8 @@ fn run(r: &mut Run) -> Result<(), MachineryError> {
             check_word(&word, 3, cx);
         }
     })?;
-    let core = [L, HY, W, CM, D, CSI, OSH, CSIT];
-    let n = t.pick(6, 7);
+    let core = [L, HY, W, CM, D, CSI, OSH, CSIT, CSIL];
+    let n = t.pick(5, 7);
     let space = Space { name: "C12/words-core-deeper".into(), menu: menu(&core), max_len: n, desc: format!("words of length <= {} over the 8 symbols that drive hyphen splitting and force-breaking (incl. a CSI with a non-letter final byte)", n) };
     r.space(space, |seq, cx| {
         let body = build(seq, &core);
